@@ -134,16 +134,17 @@ P4b = RR.Pattern(lambda op, x, axis: op.Relu(x, axis=axis, _allow_other_attribut
 P4c = RR.Pattern(lambda op, x, axis: op.Relu(x, axis=axis))
 
 
-def c4_attrs(i1: int, axis: int, has_axis: bool, extra: bool, variant: int) -> bool:
-    """
+def c4_attrs(i1: int, axis: int, has_axis: bool, extra: bool, variant: int, is_ref: bool = False) -> bool:
+    """is_ref: the node's attribute refers to an attribute parameter of the enclosing function (its value is unknown: no instance)
     vp-pre: 0 <= i1 < 5 and 0 <= variant < 3
     """
-    attrs = ([ir.AttrInt64("axis", axis)] if has_axis else []) + ([ir.AttrInt64("beta", 7)] if extra else [])
+    ax = ir.RefAttr("axis", "p_axis", ir.AttributeType.INT) if is_ref else ir.AttrInt64("axis", axis)
+    attrs = ([ax] if has_axis else []) + ([ir.AttrInt64("beta", 7)] if extra else [])
     m, g, n, v = mk([("", OPS[i1], ["a"], attrs, 1)], ["a"], ["v0"])
     pat = [P4, P4b, P4c][variant]
     r = pat.match(m, g, n[0])
     allow_extra = variant != 0  # default (None) allows other attributes
-    expected = OPS[i1] == "Relu" and has_axis and (allow_extra or not extra)
+    expected = OPS[i1] == "Relu" and has_axis and (allow_extra or not extra) and not is_ref
     if bool(r) != expected:
         return False
     return (not r) or (r.bindings["axis"].as_int() == axis and r.bindings["x"] is v["a"])
@@ -392,6 +393,55 @@ def c13_optional_attrs(i1: int, has_alpha: bool, has_gamma: bool, has_beta: bool
     return (not r) or r.bindings["x"] is v["a"]
 
 
+# ---------------------------------------------------------------- class 14: attribute constants of several types
+PCONST = [1, 1.0, "ab", [1, 2], [1.0], ["a", "b"], 2, "a"]
+P14 = [RR.Pattern((lambda c: (lambda op, x: op.Relu(x, k=c)))(c)) for c in PCONST]
+NATTR = [("INT", 1), ("FLOAT", 1.0), ("STRING", "ab"), ("INTS", [1, 2]), ("INTS", [1]), ("FLOATS", [1.0]), ("STRINGS", ["a", "b"]), ("STRING", "a"),
+         ("INT", 2), ("FLOAT", 2.5), ("STRINGS", ["ab"])]
+
+
+def _mk_attr(kind, v):
+    return {"INT": ir.AttrInt64, "FLOAT": ir.AttrFloat32, "STRING": ir.AttrString, "INTS": ir.AttrInt64s, "FLOATS": ir.AttrFloat32s,
+            "STRINGS": ir.AttrStrings}[kind]("k", v)
+
+
+def c14_attr_constants(pi: int, ni: int, i1: int) -> bool:
+    """documented meaning: standard equality of the values, element-wise and in order for list-valued attributes; a scalar never
+    equals a list and a string is not a list of its characters; the matcher must not raise
+    vp-pre: 0 <= pi < 8 and 0 <= ni < 11 and 0 <= i1 < 5
+    """
+    # the three indices are concretised by comparison forks (one path per combination); the matcher then runs on concrete values
+    pi_, ni_, i1_ = _pick14(pi, 0, 7), _pick14(ni, 0, 10), _pick14(i1, 0, 4)
+    from crosshair.tracers import NoTracing
+    with NoTracing():
+        return _c14_concrete(pi_, ni_, i1_)
+
+
+def _pick14(v, lo, hi):
+    for c in range(lo, hi + 1):
+        if v == c:
+            return c
+    raise AssertionError("out of range")
+
+
+def _c14_concrete(pi, ni, i1) -> bool:
+    kind, val = NATTR[ni]
+    m, g, n, v = mk([("", OPS[i1], ["a"], [_mk_attr(kind, val)], 1)], ["a"], ["v0"])
+    try:
+        r = P14[pi].match(m, g, n[0])
+    except (TypeError, ValueError, AttributeError):
+        return False  # the matcher must answer, not raise
+    pc = PCONST[pi]
+    p_list, n_list = isinstance(pc, list), isinstance(val, list)
+    if p_list != n_list:
+        same = False
+    elif p_list:
+        same = len(pc) == len(val) and all((isinstance(a, str) == isinstance(b, str)) and a == b for a, b in zip(pc, val))
+    else:
+        same = (isinstance(pc, str) == isinstance(val, str)) and pc == val
+    return bool(r) == (OPS[i1] == "Relu" and same)
+
+
 def _ob(name, timeout=200, bounds="", tt=None, slice_=None):
     if slice_ is not None:
         var, n = slice_
@@ -420,5 +470,6 @@ OBLIGATIONS = [
     *_ob("c9_three", 300, tt=900, slice_=("i0", 5)), _ob("c10_or_shared_var", 300), _ob("c10b_or_plain_alt", 300),
     _ob("c12_commute_const", 300, "constant value: bounded symbolic index into 12 values around the tolerance of 1000.0; op-type index, operand order, commuted or plain pattern symbolic"),
     _ob("c13_optional_attrs", 300, "host leaves symbolic: op-type index, presence of each of three attributes, pattern variant (strict with one / two optional attribute variables, default)"),
+    _ob("c14_attr_constants", 300, "pattern constant index (8 constants: int, float, str, ints, floats, strings) x node attribute index (11 typed attributes) x op-type index, all symbolic"),
     _ob("c11_one_of_two_outputs", 300, "host leaves symbolic: op-type indices, which of the two outputs the pattern returns, whether the other output / the inner value is used outside or is a graph output"),
 ]
